@@ -186,9 +186,9 @@ def Impl.ty (a : Impl K) : Ty := ⟨a.dom, a.ran, a.isFn⟩
 variable [DecidableEq K]
 
 /-- `is_linear` as the constructors set it. `OperatorVectorSum`, the pointwise product and
-the quotient say `False`; `ConstantFunctional` says `constant == 0`;
-`FunctionalRightVectorMult` re-initialises through `Functional.__init__(space)` and so
-ends with `False` whatever the functional was. -/
+the quotient say `False`; `ConstantFunctional` says `constant == 0`; every other class
+passes the flag(s) of its operand(s) on (`FunctionalRightVectorMult` too, since the repair
+of C04-F1: `Functional.__init__(space, linear=func.is_linear)`). -/
 def Impl.lin : Impl K → Bool
   | .leaf i => i.lin
   | .sum _ l r => l.lin && r.lin
@@ -200,7 +200,7 @@ def Impl.lin : Impl K → Bool
   | .lscal _ a _ => a.lin
   | .rscal _ a _ => a.lin
   | .lvec a _ => a.lin
-  | .rvec fn a _ => if fn then false else a.lin
+  | .rvec _ a _ => a.lin
   | .flvec a _ => a.lin
   | .const _ c => decide (c 0 = 0)
   | .zero _ => true
@@ -454,16 +454,6 @@ def linOf : Expr K → Bool
     | .lmul => linOf a
     | .rmul => linOf a
     | _ => false
-
-/-- No sub-expression `f * v` with `f` a `Functional` object (the call site of finding
-C04-F1: `FunctionalRightVectorMult` drops the flag). -/
-def NoFnRVec (env : Nat → Vec K → Vec K) : Expr K → Prop
-  | .leaf _ => True
-  | .neg a => NoFnRVec env a
-  | .pow a _ => NoFnRVec env a
-  | .bin _ a b => NoFnRVec env a ∧ NoFnRVec env b
-  | .sc _ a _ => NoFnRVec env a
-  | .vc o a _ => NoFnRVec env a ∧ (o = .rmul → ∀ a', build env a = some a' → a'.isFn = false)
 
 end
 
